@@ -19,11 +19,11 @@ class Sim:
         self.D = D = set(design.comb_ids)        # time zero: every comb process runs once
         self.NB = NB = []
         ns = dict(rt.NAMESPACE)
-        ns.update(V=V, D=D, NB=NB)
+        ns.update(V=V, D=D, NB=NB, FM=design.fm)
         exec(design.code, ns)
         self._procs = [ns['p%d' % p.id] for p in design.procs]
         self._ff = list(design.ff_ids)
-        self._fan = design.fan
+        self._fm = design.fm
         self.stats = {'activations': 0, 'delta_cycles': 0, 'evals': 0, 'ticks': 0, 'nba_updates': 0}
 
     # ------------------------------------------------------------------ names
@@ -72,9 +72,12 @@ class Sim:
                     raise SvError("'%s': expected an int, got %r" % (name, value))
             if not 0 <= value <= (1 << var.ptype.width) - 1:
                 raise SvError("'%s': value %d does not fit in %d bits" % (name, value, var.ptype.width))
-            if self.V[slot] != value:
+            x = self.V[slot] ^ value
+            if x:
                 self.V[slot] = value
-                self.D.update(self._fan[slot])
+                for m, ps in self._fm[slot]:
+                    if x & m:
+                        self.D.update(ps)
             return
         if not isinstance(value, (list, tuple)) or len(value) != dims[0]:
             raise SvError("'%s': expected a list of %d elements" % (name, dims[0]))
@@ -97,7 +100,7 @@ class Sim:
     # -------------------------------------------------------------- execution
     def _run(self):
         D, NB, V = self.D, self.NB, self.V
-        procs, fan = self._procs, self._fan
+        procs, fm = self._procs, self._fm
         shuffle = self._rng.shuffle
         st = self.stats
         deltas = 0
@@ -122,10 +125,14 @@ class Sim:
                 break
             st['nba_updates'] += len(NB)
             for k, keep, bits in NB:
-                n = (V[k] & keep) | bits
-                if V[k] != n:
+                o = V[k]
+                n = (o & keep) | bits
+                if o != n:
                     V[k] = n
-                    D.update(fan[k])
+                    x = o ^ n
+                    for m, ps in fm[k]:
+                        if x & m:
+                            D.update(ps)
             del NB[:]
         st['delta_cycles'] += deltas
 
